@@ -29,15 +29,14 @@ func buildReferenceGraph(values map[string][]token) map[string][]string {
 }
 
 // nodeContainsCycle checks for a cycle in graph by performing a depth first traversal
-// recursively, starting from node, and passing the visited nodes to stop if a cycle
-// is found. Nodes whose whole subgraph has been searched without finding a cycle are
-// recorded in done and never searched again, which keeps the search linear in the
-// size of the graph instead of enumerating every path.
-func nodeContainsCycle(node string, graph map[string][]string, visited []string, done map[string]bool) (bool, string) {
+// recursively, starting from node, and recording the nodes on the current path in
+// onPath to stop if a cycle is found. Nodes whose whole subgraph has been searched
+// without finding a cycle are recorded in done and never searched again, which keeps
+// the search linear in the size of the graph instead of enumerating every path.
+func nodeContainsCycle(node string, graph map[string][]string, onPath map[string]bool, done map[string]bool) (bool, string) {
 	if done[node] {
 		return false, ""
 	}
-	visited = append(visited, node)
 
 	symRefs, ok := graph[node]
 	if !ok {
@@ -45,15 +44,17 @@ func nodeContainsCycle(node string, graph map[string][]string, visited []string,
 		return false, ""
 	}
 
+	onPath[node] = true
 	for _, ref := range symRefs {
-		if slices.Contains(visited, ref) {
+		if onPath[ref] {
 			return true, ref
 		}
-		subCycle, key := nodeContainsCycle(ref, graph, visited, done)
+		subCycle, key := nodeContainsCycle(ref, graph, onPath, done)
 		if subCycle {
 			return true, key
 		}
 	}
+	delete(onPath, node)
 
 	done[node] = true
 	return false, ""
@@ -61,8 +62,9 @@ func nodeContainsCycle(node string, graph map[string][]string, visited []string,
 
 func graphContainsCycle(graph map[string][]string) (bool, string) {
 	done := make(map[string]bool)
+	onPath := make(map[string]bool)
 	for key := range graph {
-		nodeCycle, cycleKey := nodeContainsCycle(key, graph, []string{}, done)
+		nodeCycle, cycleKey := nodeContainsCycle(key, graph, onPath, done)
 		if nodeCycle {
 			return true, cycleKey
 		}
